@@ -7,7 +7,7 @@ CONSTANTS
   UseComp = TRUE
   MaxRx = 2
   AllowDup = FALSE
-  Modes <- Modes_Two
+  Modes <- Modes_B
   MaxSys = 1
   MaxOps = 0
   Preds <- Preds_None
